@@ -10,17 +10,17 @@ CLAIMED = {
             "Sampling, not enumeration. Trusted: SDK bank events as the record of movements (cross-checked against bank state every block); the model's fee tracks accepted authority updates and is compared with the stored params after every block."),
     "C02": ("5/C02", "Same simulation; the whole-chain balance sheet of every accepted coinswap transaction (all accounts, all denoms, all supplies) must equal exactly the traded coins between sender, recipient and the pools involved; bounds, deadlines (with deadlines expiring in flight), liquidity-token mint/burn, response amounts and the creation-fee split are judged per transaction; recipients equal to and different from the sender, fresh and blocked addresses.",
             "Sampling, not enumeration. Trusted: SDK bank events (cross-checked against bank state every block)."),
-    "C03": ("5/C03", "Simulated histories of create / claim (right, wrong, replayed and eavesdropped secrets, by any account) / expiry for plain, incoming and outgoing hash-time-locked contracts, multi-coin amounts, time locks biased to the minimum, several contracts per expiry height, claims retimed onto expiry-1 / expiry / expiry+1, duplicate creations in every state, parameter updates, delays, retries, out-of-gas, failing tail messages, restarts and crashes. A per-contract lifecycle model decides the verdict of every claim and creation; accepted transactions and every begin-block are judged by exact whole-chain balance sheets; contract state is compared with the HTLC query after every block; at the end every contract has at most/exactly one exit and exits equal entries.",
+    "C03": ("5/C03", "Simulated histories of create / claim (right, wrong, replayed and eavesdropped secrets, by any account) / expiry for plain, incoming and outgoing hash-time-locked contracts, multi-coin amounts, time locks biased to the minimum, several contracts per expiry height (in some runs more than a hundred), claims retimed onto expiry-1 / expiry / expiry+1, duplicate creations in every state, parameter updates, delays, retries, out-of-gas, failing tail messages, restarts and crashes. A per-contract lifecycle model decides the verdict of every claim and creation; accepted transactions and every begin-block are judged by exact whole-chain balance sheets; contract state is compared with the HTLC query after every block; at the end every contract has at most/exactly one exit and exits equal entries.",
             "Sampling. Trusted: SDK bank events (cross-checked against bank state every block). Known finding: right-secret claims of incoming transfers refused after a parameter update."),
     "C04": ("5/C04", "Same simulation with a governor changing asset parameters and block-time distributions that cross the time-limit period (a single step larger than the period, steps summing exactly to it, nanosecond periods). After every block: escrow = sum of open plain + outgoing contracts (harness donations subtracted), per-asset incoming/outgoing/current counters = sums over the model's contracts, current = bank supply for HTLT-only denoms, limits within stretches of unchanged parameters with tumbling windows recomputed from block times alone.",
             "Sampling. 'One limit period' is read as the module's documented tumbling window."),
     "C05": ("5/C05", "Simulated farm histories (stake / unstake / harvest / adjust / destroy by several farmers and creators over real coinswap liquidity tokens, 1..max reward denoms, coprime small and huge magnitudes, future starts, natural expiry, operations retimed onto start, end and destroy blocks) with faults. After every block: sum of farmer stakes = pool total, farm escrow = staked + remaining rewards, stake/unstake move exactly the stated amount; any unstake of at most the model stake must succeed at any height; an epilogue makes every farmer withdraw everything.",
-            "Sampling. The community-pool creation path (needs a passed gov proposal) is not exercised."),
+            "Sampling. The community-pool creation message cannot execute in this application; the pool such a proposal produces is put into the genesis of some runs instead."),
     "C06": ("5/C06", "Same simulation judged against an exact rational (big.Rat) stake-time reference: funded = remaining + released after every block, released only while someone is staked, refund to the creator exactly once (end block or destroy), end height = start + min floor(budget/rate), after an adjust the budget lasts to the new end, per-farmer cumulative payout within the property's stated rounding of the exact share, sum paid <= released.",
             "Sampling. Tolerance taken from the property's wording (one unit per interaction plus 18-decimal accumulator truncation)."),
     "C07": ("5/C07", "Simulated service histories (define / bind / update / enable / disable / refund-deposit / call one-shot and repeated contexts / respond / withdraw / expire over several providers, owners and consumers; pricing with time and volume promotions, in the base and a second denom; tax and slash fractions sampled; consumers drained) with faults. After every transaction and end block: deposit escrow = sum of bindings' deposits; request escrow = fees of active requests + earned fees (provider and owner tallies agreeing); end-block charge to each consumer = sum of the fees recorded on the requests created for them; answered => tax to the fee collector, rest to the provider tally; expired => full refund and exactly the slashed fraction moved; withdraw pays exactly the tally.",
             "Sampling. Requests are learned from end-block events and queries; the module callback tap is a verif-tagged hook."),
-    "C08": ("5/C08", "Same simulation judged against a request / context automaton: respond accepted iff addressed provider and active; each request ends in exactly one outcome at or before its expiration height; one-shot contexts issue one batch and are removed; repeated unmodified running contexts issue batch n+1 exactly their frequency after batch n, none while paused, none beyond total; only the consumer's pause/start/kill/update accepted; module callbacks (recorded by the tap, through oracle feeds and random requests) fire once per batch.",
+    "C08": ("5/C08", "Same simulation judged against a request / context automaton: respond accepted iff addressed provider and active; each request ends in exactly one outcome at or before its expiration height; one-shot contexts issue one batch and are removed; repeated unmodified running contexts issue batch n+1 exactly their frequency after batch n, none while paused, none beyond total; only the consumer's pause/start/kill/update accepted; module callbacks (recorded by the tap, through oracle feeds and random requests) fire once per batch, with outputs iff the threshold was met.",
             "Sampling."),
     "C13": ("5/C13", "All ten workload modules on one chain with due-height targeting (operations retimed onto expiry / end / batch / fulfilment heights and their neighbours, several objects per due height), restarts, crashes, clock jumps. Any panic escaping FinalizeBlock with an irismod frame is a violation (stack in the replay); after every block each module's queue (HTLC expiry, farm active pools, service new-batch / expired-batch with height markers, random requests) is compared by raw iteration with the objects the module's queries report; exactly-once at the due height comes from the modules' lifecycle ledgers.",
             "Sampling."),
@@ -36,13 +36,13 @@ CLAIMED = {
             "Sampling."),
     "C15": ("5/C15", "Simulated MT histories with amounts over the whole uint64 range (0, 1, 2^63, 2^64-1, balance +-1, room below the limit +-1): issue / mint / edit / transfer (incl. to self) / burn / class handover by owners and strangers, with faults. Big-integer ledger: sum of balances = supply per token, exact movement, accepted iff the holder has the amount, any stored value differing from the model (wrap-around) is a violation, authority verdicts, generated ids never repeat.",
             "Sampling."),
-    "C19": ("5/C19", "Simulated record histories: byte-identical records from one creator in one transaction (multi-message), one block and across blocks, failing tail messages after a create (whole-tx rollback including the id counter), out-of-gas, restarts, crashes. Every returned id is new in the run; every id is read back (contents, creator, sha256 of the creating tx) after every block until the end.",
+    "C19": ("5/C19", "Simulated record histories: byte-identical records from one creator in one transaction (multi-message), one block and across blocks, failing tail messages after a create (whole-tx rollback including the id counter), out-of-gas, restarts, crashes. Some runs start from a genesis with 251-255 or 65531-65535 records (counter boundaries). Every returned id is new in the run; every id is read back (contents, creator, sha256 of the creating tx) after every block until the end.",
             "Sampling."),
-    "C11": ("5/C11", "Every simulated history (all workload modules on one chain) is recorded as a block stream and executed again on fresh nodes inside the same simulation: a twin, a late joiner whose host clock the simulator moved forward by a log-uniform skew (1 ms .. 10 years; chain time placed on both sides of the host clock at every scale), a node restarted at block boundaries (down to every block), and a node that crashes after FinalizeBlock and before Commit and re-executes the block. App hash and every transaction result must agree block by block; exported genesis must agree between nodes and between two exports of one node; on divergence the stores are diffed to name module and key.",
+    "C11": ("5/C11", "Every simulated history (all workload modules on one chain) is recorded as a block stream and executed again on fresh nodes inside the same simulation: a twin, a late joiner whose host clock the simulator moved forward by a log-uniform skew (1 ms .. 10 years; chain time placed on both sides of the host clock at every scale), a node restarted at block boundaries (down to every block), and a node that crashes after FinalizeBlock and before Commit and re-executes the block. App hash and every transaction result (code, codespace, data, gas, and the log text) must agree block by block - the late joiner also runs under another process time zone; the primary alone simulates (gas-estimates) some transactions before their block; exported genesis must agree between nodes and between two exports of one node; on divergence the stores are diffed to name module and key.",
             "Sampling. The host clock is the testing/synctest fake clock (real time never read). Another CPU architecture or toolchain is not explored (amd64, go1.26.8 only)."),
-    "C12": ("5/C12", "At seeded block boundaries (and at the end of every history) the primary node's disk is cloned, the clone exported (as is, or after the modules' own PrepForZeroHeightGenesis), the genesis imported into a fresh application through InitChain (must be accepted) and, directly through the module manager, into a second one whose state is exported again (byte-equal module sections = fixpoint) and queried (workload modules render the queries about the durable objects they know; answers must be equal on source and target).",
+    "C12": ("5/C12", "At seeded block boundaries (and at the end of every history) the primary node's disk is cloned, the clone exported (as is, or after the modules' own PrepForZeroHeightGenesis), the genesis imported into a fresh application through InitChain (must be accepted) and, directly through the module manager, into a second one whose state is exported again (byte-equal module sections = fixpoint) and queried (workload modules render the queries about the durable objects they know; answers must be equal on source and target); as-is exports also compare the raw module stores; for the zero-height variant the chain before the preparation is compared with the re-imported one for what the preparation must preserve (htlc supplies and open contracts, pending random request ids).",
             "Sampling of reachable states by the workload; in-flight items a module documents as dropped are excluded by the modules' query lists."),
-    "C16": ("5/C16", "Parameter experiments on throw-away branches of the committed state at seeded block boundaries: generated parameter sets (interior, boundary, zero, huge, absent fields, invalid) of coinswap/farm/htlc/service/token go through the module's own MsgUpdateParams handler from non-authorities (must change nothing) and from the authority; a set the module's Validate rejects must not be stored (message and genesis import); for stored sets, sampled workload messages and the next begin/end block are executed under P and under the defaults, outcome classes compared: violation iff P panics where the defaults do not. Stored parameters of the real chain are validated after every block.",
+    "C16": ("5/C16", "Parameter experiments on throw-away branches of the committed state at seeded block boundaries: generated parameter sets (interior, boundary, zero, huge, absent fields, invalid) of coinswap/farm/htlc/service/token go through the module's own MsgUpdateParams handler from non-authorities (must change nothing) and from the authority; a set the module's Validate rejects must not be stored (message and genesis import); for stored sets, sampled workload messages and the next begin/end block are executed under P and under the defaults, outcome classes compared: violation iff P panics where the defaults do not. After a valid set was imported by a fresh node, the module's canonical small operations run there under P and, on another fresh node, under the defaults (an abort under P only - checked-integer overflow included - is the parameter's doing). Stored parameters of the real chain are validated after every block.",
             "Sampling of the parameter space and of message/state combinations. Handlers are invoked through the app's message router on a branched context (no ante handler)."),
 }
 
